@@ -209,7 +209,7 @@ CONFIG.rule = ("the real signing async service (net_async.c) over the real async
                "(thorough 30000) random schedules of up to 60 steps for cache sizes 1..64 and timeouts incl. 0, id wrap-around cycles. "
                "Compared after every step: add status and request id, handle returned by run (which request, state, error), pending count; "
                "oracle on the implementation's own output: no handle twice, only accepted handles, cache-full iff outstanding = size, "
-               "pending = accepted - returned. Distinct by op line.")
+               "pending = accepted - returned. Distinct by op line. The same schedules (without next-generation replies) for the EXTENDING service (asyncx; status-0 replies carry a calendar chain for the request's aggregation time; every status 0x101..0x301 as a reply status and as an error PDU). Histories with configuration requests (ac: hash + configuration in one request, cf: configuration alone; replies okc / cok / conf) ending with every timeout elapsed: judged on the output alone (confOracle).")
 CONFIG.trusted_base = ["Lean 4.33.0 kernel; axioms propext, Classical.choice, Quot.sound only",
                        "model KsiVerif.Model.Async (on KsiVerif.Model.Tcp) hand-written from net_async.c:579-1458; tied by harness/exec_c13.c",
                        "what a PDU means (parsed, MAC valid, id, status) is an interpretation parameter in the model (C06/C10)"]
